@@ -806,6 +806,140 @@ fn family_c10(ctx: &mut Ctx) {
     long_run_rounds(ctx, &mut rng, &engines, n, true);
 }
 
+/// Twin rounds on ONE decoder: a round on shape A, then reset to a neighbouring shape B (one shard more or less, same
+/// chunk size; or the same shape) and a round in which shards with exactly the SAME indexes arrive in the same
+/// order. Anything remembered per received pattern or per shape across rounds is exercised. Each round is
+/// recorded as an ordinary `dec` event (restored = the missing originals of THAT round).
+fn family_twins(ctx: &mut Ctx) {
+    use crate::dut::DecObj;
+    use std::panic::{catch_unwind, AssertUnwindSafe};
+    let engines = ctx.engines.clone();
+    let mut rng = util::rng(ctx.seed, 0x7715);
+    let shapes: Vec<(usize, usize)> = vec![(5, 3), (9, 4), (12, 16), (99, 16), (30, 7), (7, 30), (3, 5), (17, 17), (64, 8), (100, 100)];
+    let mut case = 0usize;
+    for (ka, ra) in shapes {
+        for (dk, dr_) in [(1i64, 0i64), (-1, 0), (0, 1), (0, -1), (0, 0), (2, 0)] {
+            let kb = (ka as i64 + dk) as usize;
+            let rb = (ra as i64 + dr_) as usize;
+            for kind in [Kind::High, Kind::Low, Kind::Default] {
+                let rate_of = |k: usize, r: usize| -> Option<&'static str> {
+                    match kind {
+                        Kind::High => crate::dut::supports_rate("high", k, r).then_some("high"),
+                        Kind::Low => crate::dut::supports_rate("low", k, r).then_some("low"),
+                        _ => ops::default_rate_of(k, r),
+                    }
+                };
+                let (Some(rate_a), Some(rate_b)) = (rate_of(ka, ra), rate_of(kb, rb)) else { continue };
+                case += 1;
+                if !ctx.thorough && case % 2 == 0 {
+                    continue;
+                }
+                let e = engines[case % engines.len()];
+                let sb = *[2usize, 66, 64].choose(&mut rng).unwrap();
+                // index set valid and sufficient for both shapes, losing at least one original in both
+                let kmin = ka.min(kb);
+                let rmin = ra.min(rb);
+                let kmax = ka.max(kb);
+                let lost = rng.gen_range(1..=rmin.min(kmin).max(1)).min(rmin);
+                if kmax > kmin - lost.min(kmin) + rmin {
+                    continue; // not enough shards for the larger shape
+                }
+                let mut os: Vec<usize> = (0..kmin).collect();
+                os.shuffle(&mut rng);
+                let mut given: Vec<(bool, usize)> = os.into_iter().skip(lost.min(kmin - 1).max(1).min(kmin)).map(|i| (false, i)).collect();
+                let need = kmax.saturating_sub(given.len());
+                let mut js: Vec<usize> = (0..rmin).collect();
+                js.shuffle(&mut rng);
+                let extra = rng.gen_range(0..=2usize);
+                if need + extra > rmin && need > rmin {
+                    continue;
+                }
+                given.extend(js.into_iter().take((need + extra).min(rmin)).map(|j| (true, j)));
+                if given.len() < kmax {
+                    continue;
+                }
+                given.shuffle(&mut rng);
+                // run both rounds on one object
+                ops::poison_on(ctx.seed ^ case as u64);
+                let mut rounds: Vec<(usize, usize, &'static str, Vec<Vec<u8>>, Result<(Vec<(usize, Vec<u8>)>, usize), String>)> = Vec::new();
+                let res = with_engine!(e, E, {
+                    catch_unwind(AssertUnwindSafe(|| {
+                        let mut d = DecObj::<E>::new(kind, ka, ra, sb).map_err(|x| util::err_json(&x))?;
+                        for (ri, (k, r, rate)) in [(ka, ra, rate_a), (kb, rb, rate_b)].into_iter().enumerate() {
+                            if ri == 1 {
+                                d.reset(k, r, sb).map_err(|x| util::err_json(&x))?;
+                            }
+                            let orig = originals(ctx.seed, 0x7700 + (case * 2 + ri) as u64, k, sb);
+                            let rec = crate::dut::ref_encode(rate, k, r, &orig);
+                            let mut out: Result<(Vec<(usize, Vec<u8>)>, usize), String> = (|| {
+                                for (is_rec, i) in &given {
+                                    if *is_rec {
+                                        d.add_recovery(*i, &rec[*i]).map_err(|x| util::err_json(&x))?;
+                                    } else {
+                                        d.add_original(*i, &orig[*i]).map_err(|x| util::err_json(&x))?;
+                                    }
+                                }
+                                let result = d.decode().map_err(|x| util::err_json(&x))?;
+                                let mut it = result.restored_original_iter();
+                                let mut v = Vec::new();
+                                for (i, s) in it.by_ref() {
+                                    v.push((i, s.to_vec()));
+                                }
+                                let again = (0..3).filter(|_| it.next().is_some()).count();
+                                Ok((v, again))
+                            })();
+                            if out.is_err() {
+                                out = out.map_err(|x| x);
+                            }
+                            rounds.push((k, r, rate, orig, out));
+                        }
+                        Ok::<(), String>(())
+                    }))
+                });
+                let fail = match res {
+                    Ok(Ok(())) => None,
+                    Ok(Err(f)) => Some(f),
+                    Err(p) => Some(util::panic_json(&util::panic_message(&*p))),
+                };
+                let g_o: Vec<usize> = given.iter().filter(|a| !a.0).map(|a| a.1).collect();
+                let g_r: Vec<usize> = given.iter().filter(|a| a.0).map(|a| a.1).collect();
+                for (ri, (k, r, rate, orig, out)) in rounds.into_iter().enumerate() {
+                    let id = ctx.next_id();
+                    let giv: BTreeSet<usize> = g_o.iter().copied().collect();
+                    let missing: Vec<(usize, &[u8])> = (0..k).filter(|i| !giv.contains(i)).map(|i| (i, orig[i].as_slice())).collect();
+                    let mut o = Obj::new()
+                        .str("ev", "dec")
+                        .int("id", id as i64)
+                        .str("kind", kind.name())
+                        .str("engine", e)
+                        .str("rate", rate)
+                        .us("k", k)
+                        .us("r", r)
+                        .us("sb", sb)
+                        .uss("gO", g_o.iter())
+                        .uss("gR", g_r.iter())
+                        .int("twin", ri as i64)
+                        .raw("odig", &digest_list(&missing));
+                    o = match out {
+                        Ok((v, again)) => {
+                            let items: Vec<(usize, &[u8])> = v.iter().map(|(i, b)| (*i, b.as_slice())).collect();
+                            o.raw("restored", &digest_list(&items)).raw("probes", "[]").us("again", again)
+                        }
+                        Err(f) => o.raw("fail", &f),
+                    };
+                    ctx.trace.line(&o.done());
+                    ctx.bump("dec/twin");
+                }
+                if let Some(f) = fail {
+                    if !f.is_empty() {
+                        ctx.trace.line(&Obj::new().str("ev", "twinfail").raw("fail", &f).done());
+                    }
+                }
+            }
+        }
+    }
+}
+
 /// C11 at scale: the same shard set in several arrival orders, and supersets of it.
 fn family_c11(ctx: &mut Ctx) {
     let engines = ctx.engines.clone();
@@ -1109,20 +1243,24 @@ pub fn main(args: &Args) -> i32 {
         group: None,
         stats: Default::default(),
     };
-    match args.req("family") {
-        "c02" => family_c02(&mut ctx),
-        "c01" => family_c01(&mut ctx),
-        "c04" => family_c04(&mut ctx),
-        "c03" => family_c03(&mut ctx),
-        "c08" => family_c08(&mut ctx),
-        "c09" => family_c09(&mut ctx),
-        "c10" => family_c10(&mut ctx),
-        "c11" => family_c11(&mut ctx),
-        "c12" => family_c12(&mut ctx),
-        "c13" => family_c13(&mut ctx),
-        other => {
-            eprintln!("unknown family {other}");
-            return 2;
+    for fam in args.req("family").split(',') {
+        ctx.group = None;
+        match fam {
+            "c02" => family_c02(&mut ctx),
+            "c01" => family_c01(&mut ctx),
+            "c03" => family_c03(&mut ctx),
+            "c04" => family_c04(&mut ctx),
+            "c08" => family_c08(&mut ctx),
+            "c09" => family_c09(&mut ctx),
+            "c10" => family_c10(&mut ctx),
+            "twins" => family_twins(&mut ctx),
+            "c11" => family_c11(&mut ctx),
+            "c12" => family_c12(&mut ctx),
+            "c13" => family_c13(&mut ctx),
+            other => {
+                eprintln!("unknown family {other}");
+                return 2;
+            }
         }
     }
     let lines = ctx.trace.finish();
